@@ -5,4 +5,6 @@ set -e
 cd "$(dirname "$0")"
 mkdir -p .cache evidence replays
 python3 tools/kani_run.py c09_push_payload_len -j 4 --timeout 1800 >/dev/null 2>&1 || true
+# the model configuration (tokio/hashbrown/parking_lot/tracing stand-ins) has its own dependency build
+python3 tools/kani_run.py m_drop_multiplexor_signals_task --config model -j 2 --timeout 1800 >/dev/null 2>&1 || true
 exit 0
